@@ -372,6 +372,7 @@ type goRender struct {
 	funcs map[string]string // helper functions for defines
 	order []string
 	depth int
+	helpers bool
 }
 
 func (r *goRender) expr(x ast.Expr) string {
@@ -426,8 +427,18 @@ func (r *goRender) expr(x ast.Expr) string {
 			}
 			return fmt.Sprintf("func() bool { for %s := int(%s); %s < int(%s); %s++ { if %s { return true } }; return false }()", v, lo, v, hi, v, body)
 		case "isnil":
-			return "(" + r.expr(e.Args[0]) + " == nil)"
-		case "old", "lold", "fresh", "all", "any", "has", "typeis", "as", "chanbuf", "seq", "seqeq", "unchanged", "card", "box", "allocated":
+			return "govcIsNil(" + r.expr(e.Args[0]) + ")"
+		case "typeis":
+			return "func() bool { _, ok := any(" + r.expr(e.Args[0]) + ").(" + types.ExprString(e.Args[1]) + "); return ok }()"
+		case "as":
+			return "any(" + r.expr(e.Args[0]) + ").(" + types.ExprString(e.Args[1]) + ")"
+		case "chanbuf":
+			r.helpers = true
+			return "govcChanBuf(" + r.expr(e.Args[0]) + ")"
+		case "chanclosed":
+			r.helpers = true
+			return "govcChanClosed(" + r.expr(e.Args[0]) + ")"
+		case "old", "lold", "fresh", "all", "any", "has", "seq", "seqeq", "unchanged", "card", "box", "allocated", "chancap":
 			r.fail = "clause uses " + id.Name + "(), which the replay generator cannot evaluate in Go"
 			return "false"
 		case "min", "max":
@@ -476,6 +487,14 @@ func (r *goRender) define(d *Define) {
 	ret := "bool"
 	if d.Ret != nil {
 		ret = types.ExprString(d.Ret)
+	}
+	if ce, ok := d.Body.(*ast.CallExpr); ok {
+		if id, ok := ce.Fun.(*ast.Ident); ok && id.Name == "ite" && len(ce.Args) == 3 {
+			r.funcs[d.Name] = fmt.Sprintf("func govcSpec_%s(%s) %s { if %s { return %s }; return %s }", d.Name, strings.Join(ps, ", "), ret,
+				r.expr(ce.Args[0]), r.expr(ce.Args[1]), r.expr(ce.Args[2]))
+			r.order = append(r.order, d.Name)
+			return
+		}
 	}
 	body := r.expr(d.Body)
 	r.funcs[d.Name] = fmt.Sprintf("func govcSpec_%s(%s) %s { return %s }", d.Name, strings.Join(ps, ", "), ret, body)
@@ -543,7 +562,7 @@ func (p *Prog) tryReplay(o *Obligation, rep *ReplayRecord, repo, dir string) (re
 	for _, ip := range imps {
 		src.WriteString("\t" + strconv.Quote(ip) + "\n")
 	}
-	src.WriteString(")\n\nvar _ = fmt.Sprint\n\n")
+	src.WriteString("\t\"reflect\"\n)\n\nvar _ = fmt.Sprint\n\n" + replayHelpers)
 	rnd := &goRender{p: p, vc: vc, funcs: map[string]string{}}
 	clause := "true"
 	if o.Kind == "post" {
@@ -555,6 +574,15 @@ func (p *Prog) tryReplay(o *Obligation, rep *ReplayRecord, repo, dir string) (re
 		if rnd.fail != "" {
 			return false, "clause not renderable in Go: " + rnd.fail
 		}
+	}
+	// preconditions are re-checked in Go: a candidate model that violates one is not a counterexample
+	var reqGo []string
+	for _, rq := range vc.spec.Requires {
+		g := rnd.expr(rq.Expr)
+		if rnd.fail != "" {
+			return false, "precondition not renderable in Go: " + rnd.fail
+		}
+		reqGo = append(reqGo, g)
 	}
 	for _, n := range rnd.order {
 		src.WriteString(rnd.funcs[n] + "\n\n")
@@ -588,6 +616,9 @@ func (p *Prog) tryReplay(o *Obligation, rep *ReplayRecord, repo, dir string) (re
 			n = "result"
 		}
 		resNames = append(resNames, n)
+	}
+	for _, g := range reqGo {
+		src.WriteString("\tif !(" + g + ") {\n\t\tfmt.Println(\"GOVC-PRECONDITION-VIOLATED\")\n\t\treturn\n\t}\n")
 	}
 	src.WriteString("\tdefer func() {\n\t\tif r := recover(); r != nil {\n\t\t\tfmt.Printf(\"GOVC-PANIC %v\\n\", r)\n\t\t\tt.Fatalf(\"panic: %v\", r)\n\t\t}\n\t}()\n")
 	if len(resNames) > 0 {
@@ -628,6 +659,8 @@ func (p *Prog) tryReplay(o *Obligation, rep *ReplayRecord, repo, dir string) (re
 	out := buf.String()
 	rep.ReplayOut = truncate(out, 4000)
 	switch {
+	case strings.Contains(out, "GOVC-PRECONDITION-VIOLATED"):
+		return false, "the candidate model violates a precondition of the function (not a counterexample)"
 	case strings.Contains(out, "GOVC-REPRODUCED"):
 		return true, "the model's inputs violate the clause on the real code"
 	case strings.Contains(out, "GOVC-PANIC") && isSafety:
@@ -649,3 +682,52 @@ func keysOf(m modelVals) []string {
 }
 
 var _ = token.NoPos
+
+const replayHelpers = `
+var govcBufCache = map[any][]any{}
+
+func govcIsNil(x any) bool {
+	if x == nil {
+		return true
+	}
+	v := reflect.ValueOf(x)
+	switch v.Kind() {
+	case reflect.Chan, reflect.Func, reflect.Map, reflect.Pointer, reflect.Interface, reflect.Slice:
+		return v.IsNil()
+	}
+	return false
+}
+
+// govcChanBuf returns what is buffered in ch (draining it once; cached).
+func govcChanBuf(ch any) []any {
+	if govcIsNil(ch) {
+		return nil
+	}
+	if v, ok := govcBufCache[ch]; ok {
+		return v
+	}
+	v := reflect.ValueOf(ch)
+	var out []any
+	for {
+		x, ok := v.TryRecv()
+		if !ok {
+			break
+		}
+		out = append(out, x.Interface())
+	}
+	govcBufCache[ch] = out
+	return out
+}
+
+// govcChanClosed: after draining, a receive succeeds immediately with ok=false iff the channel is closed.
+func govcChanClosed(ch any) bool {
+	if govcIsNil(ch) {
+		return false
+	}
+	govcChanBuf(ch)
+	v := reflect.ValueOf(ch)
+	chosen, _, ok := reflect.Select([]reflect.SelectCase{{Dir: reflect.SelectRecv, Chan: v}, {Dir: reflect.SelectDefault}})
+	return chosen == 0 && !ok
+}
+
+`
